@@ -349,6 +349,8 @@ let () =
     let rec go k = function [] -> "h?" | x :: r -> if x = i then Printf.sprintf "h%d" k else go (k + 1) r in go 0 !handles in
   let hid (k : int) : n = match List.nth_opt !handles k with Some i -> i | None -> failwith (Printf.sprintf "script uses unknown handle %d" k) in
   let ints_sorted l = String.concat "," (List.map string_of_int (List.sort compare l)) in
+  (* a file id >= 2^16 stands for a WeakArxmlFile whose file was dropped (Tree/Load.v drop_file): the harness prints -1 *)
+  let fidx (x : n) : int = let k = int_of_n x in if k >= 65535 then -1 else k in
   let handle_index (i : n) : int = let rec go k = function [] -> 1000000 | x :: r -> if x = i then k else go (k + 1) r in go 0 !handles in
   let hlist_sorted (l : n list) = String.concat "," (List.map (fun k -> if k = 1000000 then "h?" else Printf.sprintf "h%d" k) (List.sort compare (List.map handle_index l))) in
   let text_digest (s : n list) = let t = string_of_bytes s in Printf.sprintf "%d:%016Lx" (String.length t) (fnv_add fnv_init t) in
@@ -365,16 +367,16 @@ let () =
           let attrs = String.concat "," (List.map (fun (a, v) -> Printf.sprintf "%d=%s" (int_of_n a) (show_val v)) nd.n_attrs) in
           let content = String.concat "," (List.map (function CElem c -> "e" ^ hnum c | CData d -> show_val d) nd.n_content) in
           out (Printf.sprintf "N %d %s n=%d a=[%s] c=[%s] f=[%s] cm=%s" depth (hnum i) (int_of_n nd.n_name) attrs content
-                 (ints_sorted (List.map int_of_n nd.n_files)) (match nd.n_comment with Some c -> hexb c | None -> "-"));
+                 (ints_sorted (List.map fidx nd.n_files)) (match nd.n_comment with Some c -> hexb c | None -> "-"));
           if depth < 200 then List.iter (function CElem c -> dump (depth + 1) c | CData _ -> ()) nd.n_content in
       dump 0 m.m_root;
       let idents = List.sort compare (List.map (fun (p, i) -> (hexb p, hnum i)) m.m_idents) in
       List.iter (fun (p, h) -> out (Printf.sprintf "I %d %s %s" mi p h)) idents;
       List.iter (fun p ->
-        let r = match q wv (q_get_by_path (n_of_int mi) p) with ROk (Some i) -> hnum i | _ -> "-" in
+        let r = match q wv (q_get_by_path_live (n_of_int mi) p) with ROk (Some i) -> hnum i | _ -> "-" in
         let o = match q wv (q_refs_to (n_of_int mi) p) with ROk l -> hlist_sorted l | RErr e -> e in
         if r <> "-" || o <> "" then out (Printf.sprintf "P %d %s %s [%s]" mi (hexb p) r o)) !probes;
-      (match q wv (q_check_references t (n_of_int mi)) with
+      (match q wv (q_check_references_live t (n_of_int mi)) with
        | ROk l -> out (Printf.sprintf "B %d [%s]" mi (hlist_sorted l)) | RErr e -> out (Printf.sprintf "B %d err:%s" mi e))
     ) wv.w_models;
     List.iteri (fun k i ->
@@ -382,7 +384,7 @@ let () =
       let pos = match q wv (q_position i) with ROk (Some p) -> string_of_int (int_of_n p) | _ -> "-" in
       let path = res_str hexb (q wv (q_path t i)) in
       let md = res_str (fun m -> string_of_int (int_of_n m)) (q wv (q_model i)) in
-      let fm = res_str (fun (l, fs) -> Printf.sprintf "%d:[%s]" (if l then 1 else 0) (ints_sorted (List.map int_of_n fs))) (q wv (q_file_membership i)) in
+      let fm = res_str (fun (l, fs) -> Printf.sprintf "%d:[%s]" (if l then 1 else 0) (ints_sorted (List.map fidx fs))) (q wv (q_file_membership i)) in
       let nm = match q wv (q_item_name t i) with ROk (Some s) -> hexb s | _ -> "-" in
       let ident = match q wv (q_is_identifiable t i) with ROk true -> 1 | _ -> 0 in
       let cd = match q wv (q_character_data t i) with ROk (Some d) -> show_val d | _ -> "-" in
@@ -477,6 +479,17 @@ let () =
         | "remove_from_file" -> OpRemoveFromFile (h 0, ni 1)
         | _ -> failwith ("unknown op " ^ name)) in
       run1 (Op1 o)
+    | ["OP2"; "cmp_kids"; k] when not !stopped ->
+      (* C14: Element::cmp (Tree/Sort.v elem_cmp) on every ordered pair of sub-elements of the handle *)
+      (try
+        let i = hid (int_of_string k) in
+        let kids = match (!w).w_nodes i with
+          | Some nd -> List.filter_map (function CElem c -> Some c | CData _ -> None) nd.n_content | None -> [] in
+        let cell a b = match q !w (q_cmp t tab_el tab_at tab_en name_index name_defref a b) with
+          | ROk Lt -> "<" | ROk Eq -> "=" | ROk Gt -> ">" | RErr _ -> "!" in
+        out ("R OK cmp " ^ String.concat "/" (List.map (fun a -> String.concat "" (List.map (cell a) kids)) kids));
+        observe ()
+      with Stop what -> out ("Q " ^ what); stopped := true)
     | "OP2" :: name :: a when not !stopped ->
       let i k = int_of_string (List.nth a k) in
       let ni k = n_of_int (i k) in
